@@ -52,6 +52,11 @@ CANARIES = [
      "                node2.sub_select = node\n", "                node2.sub_select = node\n                node2.origin_tag = name\n", 'C18.copy.Identifier'),
     ('c18-plan-eq-none', 'C18', 'mindsdb_sql/planner/query_plan.py', "        #     return False\n        return True\n", "        #     return False\n", 'C18.plan.eq'),
     ('c18-eq-truthy', 'C18', 'mindsdb_sql/planner/steps.py', "                return False\n\n        return True\n\n    def __repr__", "                return False\n\n        return 1\n\n    def __repr__", 'C18.eq.refl.PlanStep'),
+    ('c09-number-from-one', 'C09', 'mindsdb_sql/planner/query_plan.py', "step.step_num = len(self.steps)", "step.step_num = len(self.steps) + 1", 'C09.num.add_step'),
+    ('c09-insert-front', 'C09', 'mindsdb_sql/planner/query_plan.py', "        self.steps.append(step)\n        return self.steps[-1]", "        self.steps.insert(0, step)\n        return step", 'C09.'),
+    ('c09-result-off-by-one', 'C09', 'mindsdb_sql/planner/steps.py', "return Result(self.step_num)", "return Result(self.step_num + 1)", 'C09.result.numbered'),
+    ('c09-foreign-steps-write', 'C09', 'mindsdb_sql/planner/query_planner.py', "        return self.plan.add_step(self.get_integration_select_step(select))",
+     "        step = self.get_integration_select_step(select)\n        step.step_num = len(self.plan.steps)\n        self.plan.steps.append(step)\n        return step", 'C09.disc.'),
 ]
 
 
